@@ -275,6 +275,7 @@ type RecFSM struct {
 	onEvent  func(e fsmEvent)
 	idOfLog  func(l *raft.Log) uint64
 	delay    time.Duration // slow FSM: every Apply takes this long
+	gate     chan struct{} // when non-nil, Apply waits until it is closed
 }
 
 func (f *RecFSM) add(e fsmEvent) {
@@ -287,6 +288,9 @@ func (f *RecFSM) add(e fsmEvent) {
 func (f *RecFSM) Apply(l *raft.Log) interface{} {
 	if f.delay > 0 {
 		time.Sleep(f.delay)
+	}
+	if g := f.gate; g != nil {
+		<-g
 	}
 	f.mu.Lock()
 	defer f.mu.Unlock()
